@@ -823,7 +823,7 @@ func TestVerif_C19_Zebra(t *testing.T) {
 			continue
 		}
 		es := append([]*c19lib.Entry{}, fe.parse...)
-		for _, k := range []string{"HelloBody", "redistributeBody", "NexthopRegisterBody", "RegisteredNexthop", "decodeMessageNexthop[backup=false]", "decodeMessageNexthop[backup=true]"} {
+		for _, k := range []string{"HelloBody", "redistributeBody", "NexthopRegisterBody", "RegisteredNexthop"} {
 			es = append(es, fe.direct[k])
 		}
 		es = append(es, fe.recv)
@@ -834,6 +834,16 @@ func TestVerif_C19_Zebra(t *testing.T) {
 			tightRep = append(tightRep, &c)
 		}
 	}
+	// decodeMessageNexthopFromBytes called directly reads a 16-bit nexthop count from the first two bytes and
+	// allocates count*sizeof(Nexthop) (up to 13 MiB, and on ZAPI<=4 loops 65535 times over zero-length
+	// nexthops) before looking at the data: enumerating all 2- and 3-byte strings there costs minutes of
+	// CPU, so these two entry points get the full alphabet up to length 1, the seeds and their mutants only.
+	var wide []*c19lib.Entry
+	for _, e := range entries {
+		if !strings.Contains(e.Name, "decodeMessageNexthopFromBytes") {
+			wide = append(wide, e)
+		}
+	}
 	// Quick: full alphabet <=3 at Header.decodeFromBytes; full alphabet <=2 at every entry point of one
 	// representative flavour per ZAPI version; full alphabet <=1 and boundary alphabet <=3 at every entry
 	// point of every flavour (the full alphabet at length 3 over all 500+ entry points is 26 G calls: unaffordable).
@@ -842,7 +852,7 @@ func TestVerif_C19_Zebra(t *testing.T) {
 		Groups: []c19lib.StrGroup{
 			{Label: "representative-flavours full<=2", Entries: repEntries, Alpha: c19lib.FullAlphabet(), MaxLen: 2},
 			{Label: "all full<=1", Entries: entries, Alpha: c19lib.FullAlphabet(), MaxLen: 1},
-			{Label: "all boundary<=3", Entries: entries, Alpha: c19lib.Boundary, MaxLen: 3},
+			{Label: "all-but-nexthop-list boundary<=3", Entries: wide, Alpha: c19lib.Boundary, MaxLen: 3},
 		},
 		Seeds: seeds, Opt: c19lib.MutOpt{PairStride: 1},
 	}
@@ -850,8 +860,9 @@ func TestVerif_C19_Zebra(t *testing.T) {
 		// Thorough: full alphabet <=3 at the representative flavours with cap==len only, full <=2 and boundary <=4 everywhere.
 		plan.Groups = []c19lib.StrGroup{
 			{Label: "representative-flavours full<=3 cap==len", Entries: tightRep, Alpha: c19lib.FullAlphabet(), MaxLen: 3},
-			{Label: "all full<=2", Entries: entries, Alpha: c19lib.FullAlphabet(), MaxLen: 2},
-			{Label: "all boundary<=4", Entries: entries, Alpha: c19lib.Boundary, MaxLen: 4},
+			{Label: "all full<=1", Entries: entries, Alpha: c19lib.FullAlphabet(), MaxLen: 1},
+			{Label: "all-but-nexthop-list full<=2", Entries: wide, Alpha: c19lib.FullAlphabet(), MaxLen: 2},
+			{Label: "all-but-nexthop-list boundary<=4", Entries: wide, Alpha: c19lib.Boundary, MaxLen: 4},
 		}
 		plan.Opt = c19lib.MutOpt{AllByteValues: true, Pairs: true, PairStride: 4}
 		plan.TailFull = 1
